@@ -43,6 +43,8 @@ SCHEDULERS = [
 def config_space(kind, max_t):
     if kind == "finite":
         cs = {"a": randint(0, 6), "b": choice(["x", "y", "z"]), "c": finrange(0.0, 1.0, 5)}
+    elif kind == "finite2":   # the names of "finite", other domains
+        cs = {"a": randint(0, 3), "b": choice(["x", "y"]), "c": finrange(0.0, 1.0, 3)}
     elif kind == "mixed":
         cs = {"a": uniform(0.0, 1.0), "b": choice(["x", "y", "z"]), "c": randint(1, 100), "d": loguniform(1e-4, 1.0)}
     else:
@@ -69,9 +71,11 @@ def make_scheduler(name, mode, seed, cs_kind="mixed", max_t=27, extra=None):
         s = name.split("-", 1)[1]
         if s == "rea":
             from syne_tune.optimizer.schedulers.searchers.regularized_evolution import RegularizedEvolution
-            searcher = RegularizedEvolution(cs, metric=METRIC, mode=mode, random_seed=seed,
+            # the searcher object learns its mode from the scheduler (configure_scheduler) unless it is told itself
+            skw = {} if extra.get("searcher_without_mode") else {"mode": mode}
+            searcher = RegularizedEvolution(cs, metric=METRIC, random_seed=seed,
                                             population_size=extra.get("population_size", 6),
-                                            sample_size=extra.get("sample_size", 3), points_to_evaluate=[])
+                                            sample_size=extra.get("sample_size", 3), points_to_evaluate=[], **skw)
             return FIFOScheduler(cs, searcher=searcher, metric=METRIC, mode=mode, random_seed=seed)
         so = {"debug_log": False}
         if s == "random-rc":
@@ -80,6 +84,12 @@ def make_scheduler(name, mode, seed, cs_kind="mixed", max_t=27, extra=None):
             s = "random"
             so["restrict_configurations"] = extra["restrict"]
         return FIFOScheduler(cs, searcher=s, metric=METRIC, mode=mode, random_seed=seed, search_options=so)
+    if name == "hb-dyhpo":
+        from syne_tune.optimizer.schedulers.hyperband import HyperbandScheduler
+        return HyperbandScheduler(cs, searcher="dyhpo", type="dyhpo", metric=METRIC, mode=mode, resource_attr=RES,
+                                  max_resource_attr=MAXATTR, grace_period=1, rung_increment=extra.get("rung_increment", 2),
+                                  random_seed=seed, search_options={"debug_log": False, "num_init_random": extra.get("num_init_random", 10 ** 6)},
+                                  rung_system_kwargs={"probability_sh": extra.get("probability_sh", 0.5)})
     if name.startswith("hb-"):
         from syne_tune.optimizer.schedulers.hyperband import HyperbandScheduler
         typ = name.split("-", 1)[1]
